@@ -299,6 +299,59 @@ static void tf_high(bool thorough)
     R.part(std::string("transfer function, orders up to ") + std::to_string(NMAX) + "/" + std::to_string(NMAX) + ": tap-identifying coefficient vectors (index-coded, unit vectors at every position; zero, one-tap +-1, period-3 and all -1 denominators) x impulse, delayed impulse, ramp and sign-pattern words of length <= 14, zeroing at mid-word", n_eval - e0, n_nt - t0);
 }
 
+// ---------------------------------------------------------------- one side replaced on a live filter
+// a_tf_set_den installs a denominator and its delay line, a_tf_set_num a numerator and its delay line; the other side keeps its
+// history.  To stay independent of what happens to the history of the replaced side, the replacement has no taps or only zero taps:
+// after set_den the outputs are sum(num * recent inputs) over ALL inputs fed so far, after set_num they are -sum(den * recent outputs)
+// over ALL outputs produced so far.
+static void tf_reconfig()
+{
+    uint64_t n = 0;
+    struct F2 { std::vector<double> num, den; };
+    const std::vector<F2> fs = {{{1, 2}, {-1, 0, 1}}, {{2, -1, 1}, {}}, {{1, 2, -1, 3, 1}, {1}}, {{0, 1}, {0, -1}}, {{3}, {1, 1, 0, -1}}};
+    const size_t L = 9;
+    std::vector<double> w;
+    for (size_t k = 0; k < L; ++k) { w.push_back((k % 2 ? -1.0 : 1.0) * (double)(k % 4 + 1)); }
+    for (const auto &f : fs)
+    {
+        for (size_t at : {1, 2, 3, 5})
+        {
+            for (int kind = 0; kind < 4; ++kind) // 0: set_den order 0, 1: set_den two zero taps, 2: set_num order 0, 3: set_num two zero taps
+            {
+                Filter F(f.num, f.den);
+                std::vector<double> num = f.num, den = f.den, x, y;
+                static a_real zeros[2] = {0, 0};
+                Line fresh(2);
+                std::string in = "{\"num\":" + vec(f.num) + ",\"den\":" + vec(f.den) + ",\"inputs\":" + vec(w) + ",\"after\":" + std::to_string(at) + ",\"call\":\"" + (kind < 2 ? "a_tf_set_den" : "a_tf_set_num") + (kind % 2 ? " with two zero taps" : " with no taps") + "\"}";
+                for (size_t k = 0; k < L; ++k)
+                {
+                    if (k == at)
+                    {
+                        unsigned order = kind % 2 ? 2 : 0;
+                        if (kind < 2) { a_tf_set_den(&F.tf, order, zeros, fresh.p()); den.assign(order, 0.0); }
+                        else { a_tf_set_num(&F.tf, order, zeros, fresh.p()); num.assign(order, 0.0); }
+                    }
+                    a_real got = a_tf_iter(&F.tf, (a_real)w[k]);
+                    x.push_back(w[k]);
+                    // inputs fed before a numerator replacement never meet the new taps (they are zero), outputs produced before a
+                    // denominator replacement never meet the new taps either: the whole recorded history can be used
+                    double want = ref_output(num, den, x, y, k);
+                    y.push_back(want);
+                    ++n;
+                    if (!fresh.ok() || !F.in.ok() || !F.out.ok()) { R.viol("tf|reconfigure|overrun", "a write outside a delay line after one side of a live filter was replaced", in); break; }
+                    if ((double)got != want)
+                    {
+                        R.viol(std::string("tf|reconfigure|") + (kind < 2 ? "set_den" : "set_num"), std::string("after ") + (kind < 2 ? "a_tf_set_den" : "a_tf_set_num") + " on a live filter the output at sample " + std::to_string(k) + " is " + ::num((double)got) + ", but " + (kind < 2 ? "sum(num * recent inputs), the inputs fed before the call included," : "-sum(den * recent outputs), the outputs produced before the call included,") + " is " + ::num(want), in);
+                        break;
+                    }
+                }
+            }
+        }
+    }
+    n_eval += n;
+    R.part("one side of a live filter replaced (a_tf_set_den / a_tf_set_num with no taps or two zero taps) after 1, 2, 3, 5 samples: 5 filters, the other side keeps its history", n, n);
+}
+
 // ---------------------------------------------------------------- transfer function on data far from 1
 // Scaling every sample by a power of two scales every term of the difference equation exactly, so the response to 2^e * x is 2^e times
 // the response to x bit for bit as long as nothing leaves the range of the real type - for e near both ends of that range too (a clamp,
@@ -648,6 +701,7 @@ int main(int argc, char **argv)
         tf_high(thorough);
         same_samples();
         tf_scaled();
+        tf_reconfig();
 #if A_SIZE_REAL + 0 == 16
         tf_wide();
 #endif
